@@ -67,9 +67,12 @@ def post(inst, good, traces, v):
 def run(tier, seed):
     quick = tier == "quick"
     slow = {"test_timeout": 3600}   # never-reported results: the runner waits 10 x 30 s; a long bounce period keeps the traces short
-    plan = [("tut13x2", None, 40), ("tut13r", None, 30), ("guix2", None, 30), ("tut13x2", slow, 20)] if quick else \
-           [("tut13x2", None, 300), ("tut13x2", slow, 150), ("tut13x3", slow, 100), ("tut13x3", None, 300), ("tut13r", None, 250), ("guix2", None, 250), ("getx2", None, 200), ("tut13c", None, 200),
+    plan = [("tut13x2", None, 40), ("tut13r", None, 30), ("guix2", None, 30), ("tut13x2", slow, 20), ("guigetx2", None, 20)] if quick else \
+           [("tut13x2", None, 300), ("guigetx2", None, 250), ("guigetx3", None, 200), ("tut13x2", slow, 150), ("tut13x3", slow, 100), ("tut13x3", None, 300), ("tut13r", None, 250), ("guix2", None, 250), ("getx2", None, 200), ("tut13c", None, 200),
             ("tut1x1", None, 150), ("tut13x4", None, 150)]
+    if not quick:
+        # generated suites (random setup DAGs, vf/parse/gensuite.py)
+        plan += [("gen:%d:%d" % (seed + 301 + i, 2 + i % 2), None, 120) for i in range(6)]
     return D.generic_run(PID, tier, seed, plan, make_jobs, signature, describe, explore_plan=D.explore_plan(tier, ['Completed'], lost=True), settings_of=settings_of, post=post,
                          rule="randomized timing/outcomes incl. never-reported results and persistent failure / persistent loss of one test or creation step, max_tries {1,2,3}, restricted workers, dry runs, initial pools; "
                               "step watchdog of 6000 events; TLC validates completion, definite results, executed-at-least-once, dry-run inertness")
